@@ -49,7 +49,7 @@ func Balloon.AddBulk
   // (a bulk that is rearranged in place keeps the clause above true and breaks this one)
   ensures C05/versions-in-request-order: isnil(result_2) ==> forall k int :: 0 <= k && k < len(eventBulkDigest) ==> result_0[k].EventDigest == old(eventBulkDigest[k])
   loop 1 modifies nothing
-  loop 1 invariant forall k int :: 0 <= k && k < len(eventBulkDigest) ==> eventBulkDigest[k] == old(eventBulkDigest[k])
+  loop 1 invariant C05/request-order-kept: forall k int :: 0 <= k && k < len(eventBulkDigest) ==> eventBulkDigest[k] == old(eventBulkDigest[k])
   loop 1 invariant len(snapshotBulk) == rangeindex + 1 && rangeindex < len(eventBulkDigest) && len(historyDigests) == len(eventBulkDigest)
   loop 1 invariant forall k int :: 0 <= k && k < len(snapshotBulk) ==> snapshotBulk[k] != nil && snapshotBulk[k].Version == initialVersion + uint64(k) && snapshotBulk[k].EventDigest == eventBulkDigest[k]
 
